@@ -42,7 +42,7 @@ class Check:
     shrink_runs = 60
     shrink_wall_s = 500.0
     rule = ('scenario = generated C project (generated headers via custom_target incl. chains through other outputs, depends:, depend_files:, '
-            'configure_file, multi-output custom targets indexed with [i], precompiled headers (c_pch:) that include generated headers, generator() for sources and for headers that transitively linked consumers '
+            'configure_file, multi-output custom targets indexed with [i], precompiled headers (c_pch:) that include generated headers, a generated linker version script handed over through link_depends:, generator() for sources and for headers that transitively linked consumers '
             'include from the private directory, static/shared/both libraries (also install: true) with link_with/link_whole, '
             'declare_dependency(sources:), a custom target running a built executable, subdirs, a subproject; default_library and unity varied) '
             'configured with the real ninja backend; the manifest is executed under several schedules (declaration order, reverse, '
